@@ -9,7 +9,7 @@ def isStructOp : Op → Bool
   | _ => false
 
 /-- explicit side conditions: operand widths, counters far from the 64-bit wrap, and the ORG flavour -/
-def Pre (cfg : Cfg) (a : AddrSpec.A) (st : Stmt) : Prop :=
+def PreOut (cfg : Cfg) (a : AddrSpec.A) (st : Stmt) : Prop :=
   (-4611686018427387904 ≤ a.pc a.seg ∧ a.pc a.seg ≤ 4611686018427387904 ∧
    -4611686018427387904 ≤ AddrSpec.off a a.seg ∧ AddrSpec.off a a.seg ≤ 4611686018427387904) ∧
   match st.op with
@@ -26,7 +26,7 @@ def modelLabelDefs (s : St) (st : Stmt) : List (Sym × Int) :=
   | some l => [(⟨[], some l⟩, epc s)]
   | none => []
 
-theorem labelPart_R {s : St} {a : AddrSpec.A} (h : R s a) (st : Stmt) (hs : isStructOp st.op = false) :
+theorem labelPart_R {s : St} {a : AddrSpec.A} (h : Rout s a) (st : Stmt) (hs : isStructOp st.op = false) :
     labelPart s st = (s, modelLabelDefs s st) := by
   unfold labelPart modelLabelDefs labelPresent labelHandle
   rw [h.structs]
@@ -50,9 +50,9 @@ theorem writeCode_ovf (d : Dec) (hns : d.s.actPC ≠ structSeg) (hc : d.crash = 
 def wrapDefs (ds : List (Sym × Int)) : List (Sym × Int) := ds.map (fun d => (d.1, wrap64 d.2))
 
 /-- what one step of the refinement claims -/
-def Sim (cfg : Cfg) (segs : Nat → Nat → AddrSpec.SegInfo) (s : St) (a : AddrSpec.A) (st : Stmt) : Prop :=
+def SimOut (cfg : Cfg) (segs : Nat → Nat → AddrSpec.SegInfo) (s : St) (a : AddrSpec.A) (st : Stmt) : Prop :=
   match AddrSpec.step segs a st with
-  | .ok a' defs => R (step cfg s st).1 a' ∧ (step cfg s st).2.errs = [] ∧ (step cfg s st).2.crash = false ∧
+  | .ok a' defs => Rout (step cfg s st).1 a' ∧ (step cfg s st).2.errs = [] ∧ (step cfg s st).2.crash = false ∧
                    (step cfg s st).2.defs = wrapDefs defs
   | .reject => (step cfg s st).2.errs ≠ [] ∨ (step cfg s st).2.crash = true
   | .unspecified => True
@@ -62,17 +62,17 @@ def specLabelDefs (a : AddrSpec.A) (lab : Option Nat) : List (Sym × Int) :=
   | some l => [(⟨[], some l⟩, AddrSpec.dollar a)]
   | none => []
 
-theorem modelLabelDefs_eq {s : St} {a : AddrSpec.A} (h : R s a) (lab : Option Nat) (op : Op) :
+theorem modelLabelDefs_eq {s : St} {a : AddrSpec.A} (h : Rout s a) (lab : Option Nat) (op : Op) :
     modelLabelDefs s ⟨lab, op⟩ = wrapDefs (specLabelDefs a lab) := by
   cases lab <;> simp [modelLabelDefs, specLabelDefs, wrapDefs, R_epc h]
 
-theorem step_eq {s : St} {a : AddrSpec.A} (cfg : Cfg) (h : R s a) (st : Stmt) (hs : isStructOp st.op = false) :
+theorem step_eq {s : St} {a : AddrSpec.A} (cfg : Cfg) (h : Rout s a) (st : Stmt) (hs : isStructOp st.op = false) :
     step cfg s st = ((writeCode (decode cfg s st.op)).1,
       { (writeCode (decode cfg s st.op)).2 with defs := modelLabelDefs s st ++ (writeCode (decode cfg s st.op)).2.defs }) := by
   simp [step, labelPart_R h st hs]
 
-theorem R_write0 {s : St} {a : AddrSpec.A} (h : R s a) :
-    R { s with used := upd s.used s.actPC true, pcs := upd s.pcs s.actPC (wrap64 (pc s + 0)) } a := by
+theorem R_write0 {s : St} {a : AddrSpec.A} (h : Rout s a) :
+    Rout { s with used := upd s.used s.actPC true, pcs := upd s.pcs s.actPC (wrap64 (pc s + 0)) } a := by
   refine { h with used := ?_, usedAct := ?_, pcs := ?_, savedOK := ?_ }
   · intro t; by_cases ht : t = s.actPC
     · subst ht; simp [upd, ← h.used, h.usedAct]
@@ -85,8 +85,8 @@ theorem R_write0 {s : St} {a : AddrSpec.A} (h : R s a) :
     refine ⟨this.1, ?_⟩
     by_cases h2 : x.2.1 = s.actPC <;> simp [upd, h2, this.2]
 
-theorem R_writek {s : St} {a : AddrSpec.A} (h : R s a) (k : Int) :
-    R { s with used := upd s.used s.actPC true, pcs := upd s.pcs s.actPC (wrap64 (pc s + k)) }
+theorem R_writek {s : St} {a : AddrSpec.A} (h : Rout s a) (k : Int) :
+    Rout { s with used := upd s.used s.actPC true, pcs := upd s.pcs s.actPC (wrap64 (pc s + k)) }
       { a with pc := AddrSpec.upd a.pc a.seg (a.pc a.seg + k) } := by
   refine { h with used := ?_, usedAct := ?_, pcs := ?_, savedOK := ?_, ph := h.ph }
   · intro t; by_cases ht : t = s.actPC
@@ -105,7 +105,7 @@ theorem R_writek {s : St} {a : AddrSpec.A} (h : R s a) (k : Int) :
 def written (d : Dec) : St :=
   { d.s with used := upd d.s.used d.s.actPC true, pcs := upd d.s.pcs d.s.actPC (wrap64 (pc d.s + d.codeLen)) }
 
-theorem step_ok (cfg : Cfg) {s : St} {a : AddrSpec.A} (h : R s a) (st : Stmt) (hs : isStructOp st.op = false)
+theorem step_ok (cfg : Cfg) {s : St} {a : AddrSpec.A} (h : Rout s a) (st : Stmt) (hs : isStructOp st.op = false)
     (hns : (decode cfg s st.op).s.actPC ≠ structSeg) (hc : (decode cfg s st.op).crash = false)
     (hchk : chkPC (decode cfg s st.op).s (wrap64 (epc (decode cfg s st.op).s + (decode cfg s st.op).codeLen - 1)) = true ∨
             (decode cfg s st.op).codeLen = 0) :
@@ -114,15 +114,15 @@ theorem step_ok (cfg : Cfg) {s : St} {a : AddrSpec.A} (h : R s a) (st : Stmt) (h
   rw [step_eq cfg h st hs, writeCode_ok _ hns hc hchk]
   simp [written]
 
-theorem R_written0 {a' : AddrSpec.A} (d : Dec) (hR : R d.s a') (hk : d.codeLen = 0) : R (written d) a' := by
+theorem R_written0 {a' : AddrSpec.A} (d : Dec) (hR : Rout d.s a') (hk : d.codeLen = 0) : Rout (written d) a' := by
   unfold written; rw [hk]; exact R_write0 hR
 
 /-- closing step for statements that do not advance the counter -/
-theorem sim_close0 (cfg : Cfg) (segs) {s : St} {a a' : AddrSpec.A} (h : R s a) (lab : Option Nat) (op : Op)
+theorem sim_close0 (cfg : Cfg) (segs) {s : St} {a a' : AddrSpec.A} (h : Rout s a) (lab : Option Nat) (op : Op)
     (hs : isStructOp op = false) (hspec : AddrSpec.step segs a ⟨lab, op⟩ = .ok a' (specLabelDefs a lab))
-    (hR : R (decode cfg s op).s a') (hk : (decode cfg s op).codeLen = 0) (hc : (decode cfg s op).crash = false)
-    (he : (decode cfg s op).errs = []) (hd : (decode cfg s op).defs = []) : Sim cfg segs s a ⟨lab, op⟩ := by
-  unfold Sim
+    (hR : Rout (decode cfg s op).s a') (hk : (decode cfg s op).codeLen = 0) (hc : (decode cfg s op).crash = false)
+    (he : (decode cfg s op).errs = []) (hd : (decode cfg s op).defs = []) : SimOut cfg segs s a ⟨lab, op⟩ := by
+  unfold SimOut
   obtain ⟨h1, h2, h3, h4⟩ := step_ok cfg h ⟨lab, op⟩ hs hR.notStruct hc (Or.inr hk)
   rw [hspec]
   simp only []
@@ -133,21 +133,21 @@ theorem spec_ldefs {a : AddrSpec.A} (hf : a.frames = []) (lab : Option Nat) (op 
     isStructOp op = false → AddrSpec.labelDefs a ⟨lab, op⟩ = specLabelDefs a lab := by
   cases lab <;> cases op <;> simp [AddrSpec.labelDefs, specLabelDefs, AddrSpec.labelDef, hf, isStructOp]
 
-theorem sim_nop (cfg : Cfg) (segs) {s : St} {a : AddrSpec.A} (h : R s a) (lab : Option Nat) : Sim cfg segs s a ⟨lab, .nop⟩ := by
+theorem sim_nop (cfg : Cfg) (segs) {s : St} {a : AddrSpec.A} (h : Rout s a) (lab : Option Nat) : SimOut cfg segs s a ⟨lab, .nop⟩ := by
   apply sim_close0 cfg segs h lab .nop rfl (a' := a)
   · simp [AddrSpec.step, spec_ldefs h.frames lab .nop rfl]
   · exact h
   all_goals simp [decode]
 
-theorem sim_listing (cfg : Cfg) (segs) {s : St} {a : AddrSpec.A} (h : R s a) (lab : Option Nat) (b : Bool) :
-    Sim cfg segs s a ⟨lab, .listing b⟩ := by
+theorem sim_listing (cfg : Cfg) (segs) {s : St} {a : AddrSpec.A} (h : Rout s a) (lab : Option Nat) (b : Bool) :
+    SimOut cfg segs s a ⟨lab, .listing b⟩ := by
   apply sim_close0 cfg segs h lab (.listing b) rfl (a' := { a with listing := b })
   · simp [AddrSpec.step, spec_ldefs h.frames lab (.listing b) rfl]
   · exact { h with listing := rfl }
   all_goals simp [decode]
 
-theorem sim_save (cfg : Cfg) (segs) {s : St} {a : AddrSpec.A} (h : R s a) (lab : Option Nat) :
-    Sim cfg segs s a ⟨lab, .save⟩ := by
+theorem sim_save (cfg : Cfg) (segs) {s : St} {a : AddrSpec.A} (h : Rout s a) (lab : Option Nat) :
+    SimOut cfg segs s a ⟨lab, .save⟩ := by
   apply sim_close0 cfg segs h lab .save rfl (a' := { a with saved := (a.cpu, a.seg, a.listing) :: a.saved })
   · simp [AddrSpec.step, h.frames, spec_ldefs h.frames lab .save rfl]
   · refine { h with saves := ?_, savedOK := ?_ }
@@ -159,8 +159,8 @@ theorem sim_save (cfg : Cfg) (segs) {s : St} {a : AddrSpec.A} (h : R s a) (lab :
       · exact h.savedOK x hx
   all_goals simp [decode, codeSAVE]
 
-theorem sim_rorg (cfg : Cfg) (segs) {s : St} {a : AddrSpec.A} (h : R s a) (lab : Option Nat) (d : Int) :
-    Sim cfg segs s a ⟨lab, .rorg d⟩ := by
+theorem sim_rorg (cfg : Cfg) (segs) {s : St} {a : AddrSpec.A} (h : Rout s a) (lab : Option Nat) (d : Int) :
+    SimOut cfg segs s a ⟨lab, .rorg d⟩ := by
   apply sim_close0 cfg segs h lab (.rorg d) rfl (a' := { a with pc := AddrSpec.upd a.pc a.seg (a.pc a.seg + d) })
   · simp [AddrSpec.step, h.frames, spec_ldefs h.frames lab (.rorg d) rfl]
   · refine { h with pcs := ?_, savedOK := h.savedOK, ph := h.ph }
@@ -185,9 +185,9 @@ theorem codeORG_facts (cfg : Cfg) (s : St) (v : Int) :
   unfold codeORG
   splits <;> simp_all [upd, pc]
 
-theorem sim_org (cfg : Cfg) (segs) {s : St} {a : AddrSpec.A} (h : R s a) (lab : Option Nat) (v : Int)
+theorem sim_org (cfg : Cfg) (segs) {s : St} {a : AddrSpec.A} (h : Rout s a) (lab : Option Nat) (v : Int)
     (hp : (cfg.orgLoad = true ∨ AddrSpec.off a a.seg = 0) ∧ 0 ≤ v ∧ v < 18446744073709551616) :
-    Sim cfg segs s a ⟨lab, .org v⟩ := by
+    SimOut cfg segs s a ⟨lab, .org v⟩ := by
   have hv : wrap64 v = v := wrap64_small hp.2.1 hp.2.2
   have hpc := R_pc h
   have hph := R_phase h s.actPC
@@ -208,7 +208,8 @@ theorem sim_org (cfg : Cfg) (segs) {s : St} {a : AddrSpec.A} (h : R s a) (lab : 
         · rw [g3 hc' he, h.seg, hph0]; simp only [wrap64_def]; omega
     refine { cpu := e1 ▸ h.cpu, seg := e2 ▸ h.seg, listing := e6 ▸ h.listing, saves := e7 ▸ h.saves, structs := e8 ▸ h.structs,
              frames := h.frames, notStruct := e2 ▸ h.notStruct, used := e5 ▸ h.used, usedAct := by rw [e5, e2]; exact h.usedAct,
-             pcs := ?_, ph := by rw [e3, e4]; exact h.ph, savedOK := by rw [e7, e5]; exact h.savedOK }
+             pcs := ?_, ph := by rw [e3, e4]; exact h.ph, savedOK := by rw [e7, e5]; exact h.savedOK,
+             startedNS := h.startedNS, offsNS := h.offsNS }
     intro t ht
     by_cases h2 : t = s.actPC
     · subst h2; simp [AddrSpec.upd, ← h.seg, e10, hv]
@@ -216,10 +217,10 @@ theorem sim_org (cfg : Cfg) (segs) {s : St} {a : AddrSpec.A} (h : R s a) (lab : 
       simp [AddrSpec.upd, h3, e9 t h2, h.pcs t ht]
   all_goals simp [decode, f1, f2, f3, f4]
 
-theorem sim_phase (cfg : Cfg) (segs) {s : St} {a : AddrSpec.A} (h : R s a) (lab : Option Nat) (v : Int) :
-    Sim cfg segs s a ⟨lab, .phase v⟩ := by
+theorem sim_phase (cfg : Cfg) (segs) {s : St} {a : AddrSpec.A} (h : Rout s a) (lab : Option Nat) (v : Int) :
+    SimOut cfg segs s a ⟨lab, .phase v⟩ := by
   by_cases hr : v < -2147483648 ∨ v > 2147483647
-  · unfold Sim; simp [AddrSpec.step, h.frames]
+  · unfold SimOut; simp [AddrSpec.step, h.frames]
     rcases hr with hr | hr
     · simp [show v < -2147483648 from hr]
     · have : ¬ v < -2147483648 := by omega
@@ -232,7 +233,7 @@ theorem sim_phase (cfg : Cfg) (segs) {s : St} {a : AddrSpec.A} (h : R s a) (lab 
       (a' := { a with offs := AddrSpec.upd a.offs a.seg ((v - a.pc a.seg) :: a.offs a.seg) })
     · simp [AddrSpec.step, h.frames, h1, h3, spec_ldefs h.frames lab (.phase v) rfl]
     · simp only [decode, codePHASE, h.notStruct, h1, h2, if_false, hti]
-      refine { h with ph := ?_, savedOK := h.savedOK, pcs := h.pcs }
+      refine { h with ph := ?_, savedOK := h.savedOK, pcs := h.pcs, offsNS := Rout_offsNS_upd h _ }
       intro t
       by_cases ht : t = s.actPC
       · subst ht
@@ -247,8 +248,8 @@ theorem sim_phase (cfg : Cfg) (segs) {s : St} {a : AddrSpec.A} (h : R s a) (lab 
         simp [upd, AddrSpec.upd, ht, h3, h.ph t]
     all_goals simp [decode, codePHASE, h.notStruct, h1, h2]
 
-theorem sim_dephase (cfg : Cfg) (segs) {s : St} {a : AddrSpec.A} (h : R s a) (lab : Option Nat) :
-    Sim cfg segs s a ⟨lab, .dephase⟩ := by
+theorem sim_dephase (cfg : Cfg) (segs) {s : St} {a : AddrSpec.A} (h : Rout s a) (lab : Option Nat) :
+    SimOut cfg segs s a ⟨lab, .dephase⟩ := by
   apply sim_close0 cfg segs h lab .dephase rfl (a' := { a with offs := AddrSpec.upd a.offs a.seg (a.offs a.seg).tail })
   · simp [AddrSpec.step, h.frames, spec_ldefs h.frames lab .dephase rfl]
   · have hph := h.ph s.actPC
@@ -258,7 +259,7 @@ theorem sim_dephase (cfg : Cfg) (segs) {s : St} {a : AddrSpec.A} (h : R s a) (la
     | nil =>
       rw [h.seg] at hps
       simp only []
-      refine { h with ph := ?_, savedOK := h.savedOK, pcs := h.pcs }
+      refine { h with ph := ?_, savedOK := h.savedOK, pcs := h.pcs, offsNS := Rout_offsNS_upd h _ }
       intro t
       by_cases ht : t = s.actPC
       · subst ht
@@ -273,7 +274,7 @@ theorem sim_dephase (cfg : Cfg) (segs) {s : St} {a : AddrSpec.A} (h : R s a) (la
     | cons p ps =>
       rw [h.seg] at hps
       simp only []
-      refine { h with ph := ?_, savedOK := h.savedOK, pcs := h.pcs }
+      refine { h with ph := ?_, savedOK := h.savedOK, pcs := h.pcs, offsNS := Rout_offsNS_upd h _ }
       intro t
       by_cases ht : t = s.actPC
       · subst ht
@@ -289,11 +290,11 @@ theorem sim_dephase (cfg : Cfg) (segs) {s : St} {a : AddrSpec.A} (h : R s a) (la
   all_goals (simp only [decode, codeDEPHASE, h.notStruct, if_false]; splits <;> simp)
 
 
-theorem sim_restore (cfg : Cfg) (segs) {s : St} {a : AddrSpec.A} (h : R s a) (lab : Option Nat) :
-    Sim cfg segs s a ⟨lab, .restore⟩ := by
+theorem sim_restore (cfg : Cfg) (segs) {s : St} {a : AddrSpec.A} (h : Rout s a) (lab : Option Nat) :
+    SimOut cfg segs s a ⟨lab, .restore⟩ := by
   cases hsv : a.saved with
   | nil =>
-    unfold Sim
+    unfold SimOut
     have hs : s.saves = [] := by rw [h.saves, hsv]
     have hd : decode cfg s .restore = { s := s, errs := [errNoSaveFrame] } := by simp [decode, codeRESTORE, hs]
     obtain ⟨h1, h2, h3, h4⟩ := step_ok cfg h ⟨lab, .restore⟩ rfl (by rw [hd]; exact h.notStruct) (by rw [hd]) (Or.inr (by rw [hd]))
@@ -315,7 +316,7 @@ theorem sim_restore (cfg : Cfg) (segs) {s : St} {a : AddrSpec.A} (h : R s a) (la
     · simp [AddrSpec.step, h.frames, hsv, spec_ldefs h.frames lab .restore rfl]
     · refine { cpu := e1, seg := e2, listing := e3, saves := e4, structs := e9 ▸ h.structs, frames := h.frames,
                notStruct := e2 ▸ hok.1, used := e8 ▸ h.used, usedAct := by rw [e8, e2]; exact hok.2,
-               pcs := e5 ▸ h.pcs, ph := by rw [e6, e7]; exact h.ph, savedOK := ?_ }
+               pcs := e5 ▸ h.pcs, ph := by rw [e6, e7]; exact h.ph, savedOK := ?_, startedNS := h.startedNS, offsNS := h.offsNS }
       rw [e4, e8]; intro x hx; exact h.savedOK x (by rw [hs]; exact List.mem_cons_of_mem _ hx)
     all_goals assumption
 
@@ -329,11 +330,11 @@ theorem setNSeg_facts (s : St) (n : Nat) (hu : s.used s.actPC = true) :
   · subst h1; simp [hu]; funext j; by_cases hj : j = s.actPC <;> simp [upd, hj, hu]
   · by_cases h2 : s.used n = true <;> simp [h1, h2]
 
-theorem R_select (segs) (hag : Agree segs) {s : St} {a : AddrSpec.A} (h : R s a) (n : Nat) (hn : n ≠ structSeg) (s2 : St)
+theorem R_select (segs) (hag : Agree segs) {s : St} {a : AddrSpec.A} (h : Rout s a) (n : Nat) (hn : n ≠ structSeg) (s2 : St)
     (e : s2.cpu = s.cpu ∧ s2.actPC = n ∧ s2.phases = s.phases ∧ s2.pstack = s.pstack ∧ s2.listOn = s.listOn ∧ s2.saves = s.saves ∧
          s2.structs = s.structs ∧ s2.used = upd s.used n true ∧
          s2.pcs = (if s.used n = true then s.pcs else upd s.pcs n (segP s.cpu n).init)) :
-    R s2 (AddrSpec.selectSeg segs a n) := by
+    Rout s2 (AddrSpec.selectSeg segs a n) := by
   obtain ⟨e1, e2, e3, e4, e5, e6, e7, e8, e9⟩ := e
   have hst : a.started n = s.used n := (h.used n).symm
   unfold AddrSpec.selectSeg
@@ -341,7 +342,8 @@ theorem R_select (segs) (hag : Agree segs) {s : St} {a : AddrSpec.A} (h : R s a)
   · have hst' : a.started n = true := by rw [hst]; exact hu
     simp only [hst', if_true]
     refine { cpu := e1 ▸ h.cpu, seg := e2, listing := e5 ▸ h.listing, saves := e6 ▸ h.saves, structs := e7 ▸ h.structs, frames := h.frames,
-             notStruct := e2 ▸ hn, used := ?_, usedAct := by simp [e8, e2, upd], pcs := ?_, ph := by rw [e3, e4]; exact h.ph, savedOK := ?_ }
+             notStruct := e2 ▸ hn, used := ?_, usedAct := by simp [e8, e2, upd], pcs := ?_, ph := by rw [e3, e4]; exact h.ph, savedOK := ?_,
+             startedNS := h.startedNS, offsNS := h.offsNS }
     · intro t; rw [e8]; by_cases ht : t = n
       · subst ht; simp [upd, hst']
       · simp [upd, ht, h.used]
@@ -351,7 +353,8 @@ theorem R_select (segs) (hag : Agree segs) {s : St} {a : AddrSpec.A} (h : R s a)
   · have hst' : a.started n = false := by rw [hst]; simpa using hu
     simp only [hst', Bool.false_eq_true, if_false]
     refine { cpu := e1 ▸ h.cpu, seg := e2, listing := e5 ▸ h.listing, saves := e6 ▸ h.saves, structs := e7 ▸ h.structs, frames := h.frames,
-             notStruct := e2 ▸ hn, used := ?_, usedAct := by simp [e8, e2, upd], pcs := ?_, ph := by rw [e3, e4]; exact h.ph, savedOK := ?_ }
+             notStruct := e2 ▸ hn, used := ?_, usedAct := by simp [e8, e2, upd], pcs := ?_, ph := by rw [e3, e4]; exact h.ph, savedOK := ?_,
+             startedNS := by simp [AddrSpec.upd, Ne.symm hn, h.startedNS], offsNS := h.offsNS }
     · intro t; rw [e8]; by_cases ht : t = n
       · subst ht; simp [upd, AddrSpec.upd]
       · simp [upd, AddrSpec.upd, ht, h.used]
@@ -369,8 +372,8 @@ theorem R_select (segs) (hag : Agree segs) {s : St} {a : AddrSpec.A} (h : R s a)
       refine ⟨this.1, ?_⟩; by_cases h2 : x.2.1 = n <;> simp [upd, h2, this.2]
 
 
-theorem sim_segment (cfg : Cfg) (segs) (hag : Agree segs) {s : St} {a : AddrSpec.A} (h : R s a) (lab : Option Nat) (n : Nat) :
-    Sim cfg segs s a ⟨lab, .segment n⟩ := by
+theorem sim_segment (cfg : Cfg) (segs) (hag : Agree segs) {s : St} {a : AddrSpec.A} (h : Rout s a) (lab : Option Nat) (n : Nat) :
+    SimOut cfg segs s a ⟨lab, .segment n⟩ := by
   by_cases hv : (segs a.cpu n).present = true
   · have hv' : (segP s.cpu n).valid = true := by rw [hag.valid, h.cpu]; exact hv
     have hn : n ≠ structSeg := by
@@ -381,15 +384,15 @@ theorem sim_segment (cfg : Cfg) (segs) (hag : Agree segs) {s : St} {a : AddrSpec
     · simp [AddrSpec.step, h.frames, hv, spec_ldefs h.frames lab (.segment n) rfl]
     · rw [hd]; exact R_select segs hag h n hn _ (setNSeg_facts s n h.usedAct)
     all_goals simp [hd]
-  · unfold Sim
+  · unfold SimOut
     have hv' : (segP s.cpu n).valid = false := by rw [hag.valid, h.cpu]; simpa using hv
     have hd : decode cfg s (.segment n) = { s := s, errs := [errUnknownSegment] } := by simp [decode, codeSEGMENT, hv']
     obtain ⟨h1, h2, h3, h4⟩ := step_ok cfg h ⟨lab, .segment n⟩ rfl (by rw [hd]; exact h.notStruct) (by rw [hd]) (Or.inr (by rw [hd]))
     simp [AddrSpec.step, h.frames, hv, h2, hd]
 
-theorem sim_cpu (cfg : Cfg) (segs) (hag : Agree segs) {s : St} {a : AddrSpec.A} (h : R s a) (lab : Option Nat) (c : Nat) :
-    Sim cfg segs s a ⟨lab, .cpu c⟩ := by
-  have hR : R { s with cpu := c } { a with cpu := c } := { h with cpu := rfl, pcs := h.pcs, ph := h.ph, savedOK := h.savedOK }
+theorem sim_cpu (cfg : Cfg) (segs) (hag : Agree segs) {s : St} {a : AddrSpec.A} (h : Rout s a) (lab : Option Nat) (c : Nat) :
+    SimOut cfg segs s a ⟨lab, .cpu c⟩ := by
+  have hR : Rout { s with cpu := c } { a with cpu := c } := { h with cpu := rfl, pcs := h.pcs, ph := h.ph, savedOK := h.savedOK }
   apply sim_close0 cfg segs h lab (.cpu c) rfl (a' := AddrSpec.selectSeg segs { a with cpu := c } 1)
   · simp [AddrSpec.step, h.frames, spec_ldefs h.frames lab (.cpu c) rfl]
   · simp only [decode, codeCPU]
@@ -397,7 +400,7 @@ theorem sim_cpu (cfg : Cfg) (segs) (hag : Agree segs) {s : St} {a : AddrSpec.A} 
   all_goals simp [decode, codeCPU]
 
 
-theorem occupy_chk (segs) (hag : Agree segs) {s : St} {a : AddrSpec.A} (h : R s a) (k : Int) (hk0 : 0 < k) (hk1 : k < 2147483648)
+theorem occupy_chk (segs) (hag : Agree segs) {s : St} {a : AddrSpec.A} (h : Rout s a) (k : Int) (hk0 : 0 < k) (hk1 : k < 2147483648)
     (hb : (-4611686018427387904 ≤ a.pc a.seg ∧ a.pc a.seg ≤ 4611686018427387904 ∧
            -4611686018427387904 ≤ AddrSpec.off a a.seg ∧ AddrSpec.off a a.seg ≤ 4611686018427387904))
     (hl : 0 ≤ a.pc a.seg) (he : 0 ≤ AddrSpec.dollar a) :
@@ -425,15 +428,15 @@ theorem occupy_chk (segs) (hag : Agree segs) {s : St} {a : AddrSpec.A} (h : R s 
 
 
 /-- generic closing step for a statement that occupies `k ≥ 0` units at the current position -/
-theorem sim_reserve (cfg : Cfg) (segs) (hag : Agree segs) {s : St} {a : AddrSpec.A} (h : R s a) (lab : Option Nat) (op : Op)
+theorem sim_reserve (cfg : Cfg) (segs) (hag : Agree segs) {s : St} {a : AddrSpec.A} (h : Rout s a) (lab : Option Nat) (op : Op)
     (hs : isStructOp op = false) (k : Int) (hk0 : 0 ≤ k) (hk1 : k < 2147483648)
     (hb : (-4611686018427387904 ≤ a.pc a.seg ∧ a.pc a.seg ≤ 4611686018427387904 ∧
            -4611686018427387904 ≤ AddrSpec.off a a.seg ∧ AddrSpec.off a a.seg ≤ 4611686018427387904))
     (hl : 0 ≤ a.pc a.seg) (he : 0 ≤ AddrSpec.dollar a)
     (hspec : AddrSpec.step segs a ⟨lab, op⟩ = AddrSpec.reserve segs a k (specLabelDefs a lab))
     (hds : (decode cfg s op).s = s) (hdk : (decode cfg s op).codeLen = k) (hc : (decode cfg s op).crash = false)
-    (hde : (decode cfg s op).errs = []) (hdd : (decode cfg s op).defs = []) : Sim cfg segs s a ⟨lab, op⟩ := by
-  unfold Sim
+    (hde : (decode cfg s op).errs = []) (hdd : (decode cfg s op).defs = []) : SimOut cfg segs s a ⟨lab, op⟩ := by
+  unfold SimOut
   rw [hspec]
   unfold AddrSpec.reserve
   simp only [h.frames]
@@ -445,7 +448,7 @@ theorem sim_reserve (cfg : Cfg) (segs) (hag : Agree segs) {s : St} {a : AddrSpec
     simp only [ho]
     rw [h1, h2, h3, h4, modelLabelDefs_eq h, hde, hdd]
     refine ⟨?_, rfl, rfl, by simp⟩
-    have := R_writek (by rw [hds]; exact h : R (decode cfg s op).s a) k
+    have := R_writek (by rw [hds]; exact h : Rout (decode cfg s op).s a) k
     simpa [written, AddrSpec.advance, h.frames, hdk] using this
   · have hkp : 0 < k := by omega
     obtain ⟨c1, c2⟩ := occupy_chk segs hag h k hkp hk1 hb hl he
@@ -459,7 +462,7 @@ theorem sim_reserve (cfg : Cfg) (segs) (hag : Agree segs) {s : St} {a : AddrSpec
         simp only []
         rw [h1, h2, h3, h4, modelLabelDefs_eq h, hde, hdd]
         refine ⟨?_, rfl, rfl, by simp⟩
-        have := R_writek (by rw [hds]; exact h : R (decode cfg s op).s a) k
+        have := R_writek (by rw [hds]; exact h : Rout (decode cfg s op).s a) k
         simpa [written, AddrSpec.advance, h.frames, hdk] using this
       | false =>
         have hchk := c2 ho
@@ -469,34 +472,34 @@ theorem sim_reserve (cfg : Cfg) (segs) (hag : Agree segs) {s : St} {a : AddrSpec
         have := writeCode_ovf (decode cfg s op) hns hc (by rw [hds, hdk]; exact hchk) (by rw [hdk]; exact hkz)
         simp [this]
 
-theorem sim_emit (cfg : Cfg) (segs) (hag : Agree segs) {s : St} {a : AddrSpec.A} (h : R s a) (lab : Option Nat) (k : Int)
-    (hp : Pre cfg a ⟨lab, .emit k⟩) : Sim cfg segs s a ⟨lab, .emit k⟩ := by
+theorem sim_emit (cfg : Cfg) (segs) (hag : Agree segs) {s : St} {a : AddrSpec.A} (h : Rout s a) (lab : Option Nat) (k : Int)
+    (hp : PreOut cfg a ⟨lab, .emit k⟩) : SimOut cfg segs s a ⟨lab, .emit k⟩ := by
   obtain ⟨hb, hk1, hl, he⟩ := hp
   by_cases hk : k ≤ 0
-  · unfold Sim; simp [AddrSpec.step, hk]
+  · unfold SimOut; simp [AddrSpec.step, hk]
   · have hti : toI32 k = k := toI32_small (by omega) (by omega)
     apply sim_reserve cfg segs hag h lab (.emit k) rfl k (by omega) hk1 hb hl he
     · simp [AddrSpec.step, hk, h.frames, spec_ldefs h.frames lab (.emit k) rfl]
     all_goals simp [decode, hti]
 
-theorem sim_res (cfg : Cfg) (segs) (hag : Agree segs) {s : St} {a : AddrSpec.A} (h : R s a) (lab : Option Nat) (k : Int)
-    (hp : Pre cfg a ⟨lab, .res k⟩) : Sim cfg segs s a ⟨lab, .res k⟩ := by
+theorem sim_res (cfg : Cfg) (segs) (hag : Agree segs) {s : St} {a : AddrSpec.A} (h : Rout s a) (lab : Option Nat) (k : Int)
+    (hp : PreOut cfg a ⟨lab, .res k⟩) : SimOut cfg segs s a ⟨lab, .res k⟩ := by
   obtain ⟨hb, hk1, hl, he⟩ := hp
   by_cases hk : k ≤ 0
-  · unfold Sim; simp [AddrSpec.step, hk]
+  · unfold SimOut; simp [AddrSpec.step, hk]
   · have hti : toI32 k = k := toI32_small (by omega) (by omega)
     apply sim_reserve cfg segs hag h lab (.res k) rfl k (by omega) hk1 hb hl he
     · simp [AddrSpec.step, hk, h.frames, spec_ldefs h.frames lab (.res k) rfl]
     all_goals simp [decode, hti]
 
 
-theorem sim_align (cfg : Cfg) (segs) (hag : Agree segs) {s : St} {a : AddrSpec.A} (h : R s a) (lab : Option Nat) (n : Int)
-    (f : Option Nat) (hp : Pre cfg a ⟨lab, .align n f⟩) : Sim cfg segs s a ⟨lab, .align n f⟩ := by
+theorem sim_align (cfg : Cfg) (segs) (hag : Agree segs) {s : St} {a : AddrSpec.A} (h : Rout s a) (lab : Option Nat) (n : Int)
+    (f : Option Nat) (hp : PreOut cfg a ⟨lab, .align n f⟩) : SimOut cfg segs s a ⟨lab, .align n f⟩ := by
   obtain ⟨hb, hw, hl, hf⟩ := hp
   subst hf
   by_cases hn0 : n = 0
   · subst hn0
-    unfold Sim
+    unfold SimOut
     simp only [AddrSpec.step, if_true]
     rw [step_eq cfg h ⟨lab, .align 0 none⟩ rfl]
     by_cases hz : cfg.alignZeroErr = 0
@@ -511,10 +514,10 @@ theorem sim_align (cfg : Cfg) (segs) (hag : Agree segs) {s : St} {a : AddrSpec.A
       rw [hw, hd]
       simp
   · by_cases hr : n < 0 ∨ n > 65535
-    · unfold Sim
+    · unfold SimOut
       rcases hr with hr | hr <;> simp [AddrSpec.step, hn0, hr]
     · by_cases hd0 : AddrSpec.dollar a < 0 ∨ (segs a.cpu a.seg).size < AddrSpec.dollar a
-      · unfold Sim
+      · unfold SimOut
         have h1 : ¬ n < 0 := by omega
         have h2 : ¬ 65535 < n := by omega
         rcases hd0 with hd0 | hd0 <;> simp [AddrSpec.step, hn0, h1, h2, h.frames, hd0]
@@ -539,8 +542,8 @@ theorem sim_align (cfg : Cfg) (segs) (hag : Agree segs) {s : St} {a : AddrSpec.A
         · simp only [decode]; unfold codeALIGN; splits <;> simp
 
 
-theorem refine_step (cfg : Cfg) (segs) (hag : Agree segs) {s : St} {a : AddrSpec.A} (h : R s a) (st : Stmt)
-    (hp : Pre cfg a st) : Sim cfg segs s a st := by
+theorem refine_step_out (cfg : Cfg) (segs) (hag : Agree segs) {s : St} {a : AddrSpec.A} (h : Rout s a) (st : Stmt)
+    (hp : PreOut cfg a st) : SimOut cfg segs s a st := by
   obtain ⟨lab, op⟩ := st
   cases op with
   | org v => exact sim_org cfg segs h lab v hp.2
@@ -559,55 +562,10 @@ theorem refine_step (cfg : Cfg) (segs) (hag : Agree segs) {s : St} {a : AddrSpec
   | endstruct => exact absurd hp.2 (by simp)
   | nop => exact sim_nop cfg segs h lab
 
-/-- the side conditions hold at every statement of a run of the spec machine -/
-def RunPre (cfg : Cfg) (segs : Nat → Nat → AddrSpec.SegInfo) : AddrSpec.A → List Stmt → Prop
-  | _, [] => True
-  | a, st :: rest => Pre cfg a st ∧
-      match AddrSpec.step segs a st with
-      | .ok a' _ => RunPre cfg segs a' rest
-      | _ => True
-
-theorem refine_run (cfg : Cfg) (segs) (hag : Agree segs) : ∀ (sts : List Stmt) (s : St) (a : AddrSpec.A), R s a →
-    RunPre cfg segs a sts → ∀ a' ds, AddrSpec.run segs a sts = some (a', ds) →
-    R (run cfg s sts).1 a' ∧ (run cfg s sts).2.map (fun o => o.defs) = ds.map wrapDefs ∧
-    (∀ o ∈ (run cfg s sts).2, o.errs = [] ∧ o.crash = false) ∧ (run cfg s sts).2.length = sts.length := by
-  intro sts
-  induction sts with
-  | nil =>
-    intro s a h _ a' ds hr
-    simp [AddrSpec.run] at hr
-    obtain ⟨rfl, rfl⟩ := hr
-    simp [run, h]
-  | cons st rest ih =>
-    intro s a h hp a' ds hr
-    have hsim := refine_step cfg segs hag h st hp.1
-    have hp2 := hp.2
-    unfold Sim at hsim
-    simp only [AddrSpec.run] at hr
-    cases hst : AddrSpec.step segs a st with
-    | reject => simp [hst] at hr
-    | unspecified => simp [hst] at hr
-    | ok a1 d =>
-      rw [hst] at hsim hr hp2
-      simp only [Option.map_eq_some_iff] at hr
-      obtain ⟨⟨a2, ds2⟩, hr2, heq⟩ := hr
-      simp only [Prod.mk.injEq] at heq
-      obtain ⟨rfl, rfl⟩ := heq
-      obtain ⟨hR1, he1, hc1, hd1⟩ := hsim
-      obtain ⟨i1, i2, i3, i4⟩ := ih (step cfg s st).1 a1 hR1 hp2 a2 ds2 hr2
-      simp only [run, hc1, Bool.false_eq_true, if_false]
-      refine ⟨i1, ?_, ?_, ?_⟩
-      · simp [hd1, i2]
-      · intro o ho
-        simp only [List.mem_cons] at ho
-        rcases ho with rfl | ho
-        · exact ⟨he1, hc1⟩
-        · exact i3 o ho
-      · simp [i4]
-
-theorem R_init (segs) (hag : Agree segs) (c : Nat) : R (init c) (AddrSpec.init segs c) := by
+theorem R_init (segs) (hag : Agree segs) (c : Nat) : Rout (init c) (AddrSpec.init segs c) := by
   refine { cpu := rfl, seg := rfl, listing := rfl, saves := rfl, structs := rfl, frames := rfl, notStruct := by simp [init, segCode, structSeg],
-           used := ?_, usedAct := by simp [init, upd], pcs := ?_, ph := by intro t; simp [init, AddrSpec.init, wrap64_def], savedOK := by simp [init] }
+           used := ?_, usedAct := by simp [init, upd], pcs := ?_, ph := by intro t; simp [init, AddrSpec.init, wrap64_def], savedOK := by simp [init],
+           startedNS := by simp [AddrSpec.init, AddrSpec.upd, structSeg], offsNS := rfl }
   · intro t; by_cases ht : t = 1 <;> simp [init, AddrSpec.init, upd, AddrSpec.upd, segCode, ht]
   · intro t ht
     have ht1 : t = 1 := by
@@ -637,28 +595,7 @@ theorem dephase_after {cfg : Cfg} (s1 : St) (act : Nat) (x : Int) (xs : List Int
   simp [decode, codeDEPHASE, hns, h2, upd]
 
 
-instance instDecPre (cfg : Cfg) (a : AddrSpec.A) (st : Stmt) : Decidable (Pre cfg a st) := by
-  unfold Pre; split <;> infer_instance
-
-/-- executable form of `RunPre` (for non-vacuity examples) -/
-def runPreB (cfg : Cfg) (segs : Nat → Nat → AddrSpec.SegInfo) : AddrSpec.A → List Stmt → Bool
-  | _, [] => true
-  | a, st :: rest => decide (Pre cfg a st) &&
-      match AddrSpec.step segs a st with
-      | .ok a' _ => runPreB cfg segs a' rest
-      | _ => true
-
-theorem runPreB_sound (cfg : Cfg) (segs) : ∀ (sts : List Stmt) (a : AddrSpec.A), runPreB cfg segs a sts = true → RunPre cfg segs a sts := by
-  intro sts
-  induction sts with
-  | nil => intro a _; trivial
-  | cons st rest ih =>
-    intro a h
-    simp only [runPreB, Bool.and_eq_true, decide_eq_true_eq] at h
-    refine ⟨h.1, ?_⟩
-    cases hs : AddrSpec.step segs a st with
-    | ok a' d => rw [hs] at h; exact ih a' h.2
-    | reject => trivial
-    | unspecified => trivial
+instance instDecPre (cfg : Cfg) (a : AddrSpec.A) (st : Stmt) : Decidable (PreOut cfg a st) := by
+  unfold PreOut; split <;> infer_instance
 
 end AslModel.Addr
